@@ -108,3 +108,32 @@ Proof.
   intros Ha Hen Hg He Hr Hp. rewrite (declared_enforced s name src e KPure Ha Hg He). rewrite Hen. cbv zeta.
   unfold exec_body. rewrite Hr, Hp. reflexivity.
 Qed.
+
+(* a contract that needs arguments, written without a call (deal.module_load(deal.has)), is no declaration the loader accepts:
+   without a call only deal.pure and deal.safe are contracts -- everything else is rejected loudly (and never applied to exec_module) *)
+Theorem bare_contract_pure_or_safe base attr c :
+  exec_contract (CAttr base attr) = CSome c -> base = "deal" /\ ((attr = "pure" /\ c = KPure) \/ (attr = "safe" /\ c = KSafe)).
+Proof.
+  unfold exec_contract, deal_attr.
+  destruct (String.eqb base "deal") eqn:Eb; cbn [negb]; [|discriminate].
+  apply String.eqb_eq in Eb.
+  destruct (String.eqb attr "pure") eqn:Ep.
+  { apply String.eqb_eq in Ep. intro H; inversion H. auto. }
+  destruct (String.eqb attr "safe") eqn:Es.
+  { apply String.eqb_eq in Es. intro H; inversion H. auto. }
+  destruct (String.eqb attr "has"); [discriminate|].
+  destruct (String.eqb attr "raises"); [discriminate|].
+  destruct (existsb (String.eqb attr) deal_names); discriminate.
+Qed.
+Theorem bare_factory_rejected s name src attr rest :
+  active s = true -> get_contracts (m_body src) = CAttr "deal" attr :: rest -> attr <> "pure" -> attr <> "safe" ->
+  import_module s name src = (s, IExc "RuntimeError").
+Proof.
+  intros Ha Hg Hp Hs. apply (unsupported_loud s name src (CAttr "deal" attr) rest Ha Hg).
+  destruct (exec_contract (CAttr "deal" attr)) as [c| |] eqn:E; [|reflexivity|].
+  - apply bare_contract_pure_or_safe in E. destruct E as [_ [[E _]|[E _]]]; contradiction.
+  - exfalso. revert E. unfold exec_contract, deal_attr. cbn [String.eqb Ascii.eqb Bool.eqb negb].
+    destruct (String.eqb attr "pure"); [discriminate|]. destruct (String.eqb attr "safe"); [discriminate|].
+    destruct (String.eqb attr "has"); [discriminate|]. destruct (String.eqb attr "raises"); [discriminate|].
+    destruct (existsb (String.eqb attr) deal_names); discriminate.
+Qed.
